@@ -346,6 +346,8 @@ impl Database {
             .wrap_err_with(|| format!("failed to create metadata file at {:?}", meta_path))?;
         file.write_all(&page)
             .wrap_err("failed to write database header")?;
+        file.sync_all()
+            .wrap_err("failed to sync database header")?;
 
         let wal_dir = path.join("wal");
 
@@ -419,15 +421,23 @@ impl Database {
             if !file_manager.table_exists(schema_name, table_name) {
                 continue;
             }
-            let storage_arc = file_manager.table_data(schema_name, table_name)?;
-            let storage = storage_arc.read();
-            let root_page = TableFileHeader::from_bytes(storage.page(0)?)?.root_page();
-            let reader = BTreeReader::new(&storage, root_page)?;
-            let cursor = reader.cursor_last()?;
-            if cursor.valid() {
-                if let Ok(bytes) = <[u8; 8]>::try_from(cursor.key()?) {
-                    max_row_id = max_row_id.max(u64::from_be_bytes(bytes));
+            // A table that cannot be read here (e.g. damaged by a crash) must not keep the
+            // database from opening; it contributes no keys.
+            let last_key = (|| -> Result<Option<u64>> {
+                let storage_arc = file_manager.table_data(schema_name, table_name)?;
+                let storage = storage_arc.read();
+                let root_page = TableFileHeader::from_bytes(storage.page(0)?)?.root_page();
+                let reader = BTreeReader::new(&storage, root_page)?;
+                let cursor = reader.cursor_last()?;
+                if cursor.valid() {
+                    if let Ok(bytes) = <[u8; 8]>::try_from(cursor.key()?) {
+                        return Ok(Some(u64::from_be_bytes(bytes)));
+                    }
                 }
+                Ok(None)
+            })();
+            if let Ok(Some(id)) = last_key {
+                max_row_id = max_row_id.max(id);
             }
         }
         drop(file_manager_guard);
@@ -571,6 +581,7 @@ impl Database {
                     let mut storage = storage_arc.write();
                     storage.grow(2)?;
                     crate::btree::BTree::create(&mut *storage, 1)?;
+                    storage.sync()?;
                 }
 
                 // Add to table ID lookup
